@@ -295,6 +295,13 @@ def meadows_case(draw):
         layout = [layout[i] for i in draw(gen.permutation(len(layout)))]
         case['layout'] = layout
         case['task_names'] = [draw(letters_st) + draw(name_st) for _ in layout]
+        # later arrangement tasks may list the same stimuli in another order (the loader
+        # documents 'Varying stimuli among ma tasks, only selecting matching')
+        orders = [list(range(n_stim))]
+        for _ in range(n_rdm - 1):
+            orders.append(draw(gen.permutation(n_stim)) if draw(st.integers(0, 2)) == 0
+                          else list(range(n_stim)))
+        case['task_orders'] = orders
     return case
 
 
@@ -330,8 +337,8 @@ def write_meadows(case, path):
             if kind == 'ma':
                 tasks.append({'status': 'finished',
                               'task': {'name': name, 'task_type': 'multiarrange'},
-                              'stimuli': [{'id': 'id%d' % i, 'name': s, 'type': 'png'}
-                                          for i, s in enumerate(stimuli)],
+                              'stimuli': [{'id': 'id%d' % i, 'name': stimuli[i], 'type': 'png'}
+                                          for i in case.get('task_orders', [list(range(len(stimuli)))] * (k + 1))[k]],
                               'trials': [], 'rdm': list(utvs[k])})
                 k += 1
             else:
@@ -368,9 +375,16 @@ def check_meadows(case):
         utvs = np.array(case['utvs'], dtype=float)
         n_rdm, n_stim = utvs.shape[0], len(case['stimuli'])
         bases = [s.split('.')[0] for s in case['stimuli']]
-        require(rdms.n_rdm == n_rdm and rdms.n_cond == n_stim,
-                '%s: %d RDMs x %d conditions, file has %d x %d' % (
-                    shape, rdms.n_rdm, rdms.n_cond, n_rdm, n_stim), 'meadows:shape:' + shape)
+        orders = case.get('task_orders') or [list(range(n_stim))] * n_rdm
+        ident = list(range(n_stim))
+        # arrangement tasks listing the stimuli in another order than the first one may be
+        # skipped (documented) or loaded - but if loaded, values must sit at their own labels
+        must = [r for r in range(n_rdm) if orders[r] == ident]
+        require(len(must) <= rdms.n_rdm <= n_rdm and rdms.n_cond == n_stim,
+                '%s: %d RDMs x %d conditions, file has %d (of which %d in the first task\'s '
+                'stimulus order) x %d' % (shape, rdms.n_rdm, rdms.n_cond, n_rdm, len(must), n_stim),
+                'meadows:shape:' + shape)
+        n_loaded = rdms.n_rdm
         conds = [str(c) for c in rdms.pattern_descriptors['conds']]
         if case['sort']:
             require(conds == sorted(bases), 'sort=True: conds %s, expected %s' % (
@@ -395,28 +409,34 @@ def check_meadows(case):
                          task_index=i) for i in pos]
             key = 'task_index'
         for k in recs[0]:
-            require(k in rd and len(rd[k]) == n_rdm, '%s: rdm descriptor %s = %r' % (
+            require(k in rd and len(rd[k]) == n_loaded, '%s: rdm descriptor %s = %r' % (
                 shape, k, rd.get(k)), 'meadows:descriptor:' + k)
-        require(sorted(rd[key], key=str) == sorted((r[key] for r in recs), key=str),
+        have = sorted(rd[key], key=str)
+        require(len(set(have)) == len(have)
+                and set(have) <= {r[key] for r in recs}
+                and {recs[r][key] for r in must} <= set(have),
                 '%s: rdm descriptor %s = %r, file has %r' % (shape, key, rd[key],
                                                             [r[key] for r in recs]),
                 'meadows:descriptor:' + key)
         mats = rdms.get_matrices()
         for r, rec in enumerate(recs):
+            if rec[key] not in rd[key]:
+                continue
             rl = rd[key].index(rec[key])
             for k, v in rec.items():
                 require(rd[k][rl] == v, '%s: RDM of %s %r has %s = %r, expected %r' % (
                     shape, key, rec[key], k, rd[k][rl], v), 'meadows:descriptor:' + k)
             sq = ref.to_square(utvs[r], n_stim)
+            own = [bases[i] for i in orders[r]]     # this task's own stimulus order in the file
             for a in range(n_stim):
                 for b in range(n_stim):
                     if a == b:
                         continue
-                    ia, ib = conds.index(bases[a]), conds.index(bases[b])
+                    ia, ib = conds.index(own[a]), conds.index(own[b])
                     if mats[rl][ia, ib] != sq[a, b]:
                         raise Violation('%s sort=%s: RDM of %s %r, value for (%s, %s) = %r, file '
-                                        'has %r' % (shape, case['sort'], key, rec[key], bases[a],
-                                                    bases[b], float(mats[rl][ia, ib]),
+                                        'has %r' % (shape, case['sort'], key, rec[key], own[a],
+                                                    own[b], float(mats[rl][ia, ib]),
                                                     float(sq[a, b])),
                                         'meadows:values:' + ('sorted' if case['sort']
                                                              else 'file-order'))
@@ -435,6 +455,9 @@ def classify_meadows(case):
               'alphabetical-file' if bases == sorted(bases) else 'unsorted-file']
     if case['shape'] == 'matN':
         labels.append('vars:' + case['var_order'])
+    if case.get('task_orders'):
+        labels.append('json-task-orders:' + ('varying' if any(
+            o != list(range(len(o))) for o in case['task_orders']) else 'same'))
     return labels, len(bases) >= 3 and bases != sorted(bases)
 
 
